@@ -38,6 +38,9 @@ def check(repo: Repo, rep, tier):
     from .C04 import approval_complete
 
     approval_complete(repo, rep)
+    from .C05 import emit_complete
+
+    emit_complete(repo, rep)
     ctx_restore(repo, rep)
 
 
